@@ -87,7 +87,7 @@ pub fn c02() -> EngineProp {
     EngineProp {
         id: "C02",
         oracles: Oracles { values: true, ..Default::default() },
-        profiles: vec![(Profile::Lossy, 25000, 600_000), (Profile::General, 12000, 300_000), (Profile::Structural, 8000, 200_000), (Profile::Related, 5000, 100_000), (Profile::Split, 60000, 1_000_000), (Profile::Tight, 10000, 200_000), (Profile::Sessions, 30000, 600_000), (Profile::Wrap, 12000, 300_000), (Profile::Vis, 25000, 500_000)],
+        profiles: vec![(Profile::Lossy, 25000, 600_000), (Profile::General, 12000, 300_000), (Profile::Structural, 8000, 200_000), (Profile::Related, 5000, 100_000), (Profile::Split, 60000, 1_000_000), (Profile::Tight, 40000, 800_000), (Profile::Sessions, 30000, 600_000), (Profile::Wrap, 12000, 300_000), (Profile::Vis, 25000, 500_000)],
         nontrivial: |s| has(s, "mut_overtook_upd") || has(s, "mut_reordered") || has(s, "mut_dropped"),
         rule: "cases as C01; after EVERY client frame each mapped entity's continuously replicated components are compared with the recorded server snapshot \
                at the entity's ConfirmHistory::last_tick (all components against the same tick), once-components against the set of server values up to that tick, \
